@@ -74,3 +74,13 @@ def run_f64(chk, n=4000):
     for i, e in enumerate(list(range(-330, 330, 7)) + [0, 1, -1, 22, 23, -22, -23, 308, 309, -323, -324, -325]):
         lines.append(f"(f64 w{i} powi 4024000000000000 {e})")
     res, _ = suite.compare(chk, lines, "f64", project=lambda x: x, suite_name="F64", sides=("model", "debug", "release"))
+
+
+def run_kw(chk):
+    """KW: every alias known to either keyword table (model's Token.v, every string literal of lexer.rs),
+    in four letter cases and five contexts, lexed by both sides."""
+    from . import gen_lex
+    texts = gen_lex.keyword_texts()
+    lines = [f"(lex k{i} tokens {C.hx(t)})" for i, t in enumerate(texts)]
+    suite.compare(chk, lines, "lex", project=lambda x: x, suite_name="KW")
+    chk.count("kw_aliases", len(gen_lex.keyword_aliases()))
